@@ -22,6 +22,7 @@ func init() {
 	gens["Src_gzip.v"] = genGoLiteGzip
 	gens["Src_errorhandler.v"] = genGoLiteErrorHandler
 	gens["Src_cors.v"] = genGoLoopCORS
+	gens["Src_bind.v"] = genGoLiteBind
 }
 
 // innerHandler finds the innermost function literal of shape func(c echo.Context) error inside fd.
@@ -443,23 +444,79 @@ func (g *goliteCfg) stmt(s ast.Stmt) ([]string, error) {
 			es = append(es, x)
 		}
 		return []string{"SRet [" + strings.Join(es, "; ") + "]"}, nil
+	case *ast.SwitchStmt:
+		// switch X { case A, B: ...; default: ... }: an if-chain on X == A || X == B, in source order (no fallthrough)
+		if v.Init != nil || v.Tag == nil {
+			return nil, fmt.Errorf("switch with an init statement or without a tag is not understood")
+		}
+		tag, err := g.expr(v.Tag)
+		if err != nil {
+			return nil, err
+		}
+		chain := "[]"
+		for i := len(v.Body.List) - 1; i >= 0; i-- {
+			cc := v.Body.List[i].(*ast.CaseClause)
+			for _, st := range cc.Body {
+				if bs, ok := st.(*ast.BranchStmt); ok && bs.Tok == token.FALLTHROUGH {
+					return nil, fmt.Errorf("fallthrough is not understood")
+				}
+			}
+			body, err := g.block(cc.Body)
+			if err != nil {
+				return nil, err
+			}
+			if cc.List == nil {
+				if i != len(v.Body.List)-1 {
+					return nil, fmt.Errorf("default case must come last")
+				}
+				chain = body
+				continue
+			}
+			cond := ""
+			for _, ce := range cc.List {
+				x, err := g.expr(ce)
+				if err != nil {
+					return nil, err
+				}
+				eq := fmt.Sprintf("ECmp CEq (%s) (%s)", tag, x)
+				if cond == "" {
+					cond = eq
+				} else {
+					cond = fmt.Sprintf("EOr (%s) (%s)", cond, eq)
+				}
+			}
+			chain = fmt.Sprintf("[SIf (%s)\n    %s\n    %s]", cond, body, chain)
+		}
+		return []string{"SIf (" + g.z("1") + ")\n    " + chain + "\n    []"}, nil
 	case *ast.TypeSwitchStmt:
 		// switch m := X.(type) { case T1: ...; case T2: ... }: the cases are tried in order; "X is a T" is a cell "X.(T)"
-		as, ok := v.Assign.(*ast.AssignStmt)
-		if !ok || len(as.Lhs) != 1 || len(as.Rhs) != 1 {
-			return nil, fmt.Errorf("type switch without binding is not understood")
-		}
-		ta, ok := as.Rhs[0].(*ast.TypeAssertExpr)
-		if !ok {
+		var ta *ast.TypeAssertExpr
+		bind := ""
+		switch as := v.Assign.(type) {
+		case *ast.AssignStmt:
+			if len(as.Lhs) != 1 || len(as.Rhs) != 1 {
+				return nil, fmt.Errorf("type switch is not understood")
+			}
+			t, ok := as.Rhs[0].(*ast.TypeAssertExpr)
+			if !ok {
+				return nil, fmt.Errorf("type switch is not understood")
+			}
+			ta = t
+			x, err := g.expr(ta.X)
+			if err != nil {
+				return nil, err
+			}
+			if bind, err = g.assignTo(as.Lhs[0], x); err != nil {
+				return nil, err
+			}
+		case *ast.ExprStmt:
+			t, ok := as.X.(*ast.TypeAssertExpr)
+			if !ok {
+				return nil, fmt.Errorf("type switch is not understood")
+			}
+			ta = t
+		default:
 			return nil, fmt.Errorf("type switch is not understood")
-		}
-		x, err := g.expr(ta.X)
-		if err != nil {
-			return nil, err
-		}
-		bind, err := g.assignTo(as.Lhs[0], x)
-		if err != nil {
-			return nil, err
 		}
 		chain := "[]"
 		for i := len(v.Body.List) - 1; i >= 0; i-- {
@@ -480,7 +537,11 @@ func (g *goliteCfg) stmt(s ast.Stmt) ([]string, error) {
 			}
 			chain = fmt.Sprintf("[SIf (EField %s)\n    %s\n    %s]", g.str(lit(ta.X)+".("+lit(cc.List[0])+")"), body, chain)
 		}
-		return []string{bind, "SIf (" + g.z("1") + ")\n    " + chain + "\n    []"}, nil
+		out := []string{"SIf (" + g.z("1") + ")\n    " + chain + "\n    []"}
+		if bind != "" {
+			out = append([]string{bind}, out...)
+		}
+		return out, nil
 	case *ast.IfStmt:
 		var pre []string
 		if v.Init != nil {
@@ -836,4 +897,27 @@ func genGoLoopCORS(repo string) (string, error) {
 		return "", err
 	}
 	return goloopHeader + "(* middleware/cors.go: the request handler (innermost closure) of CORSWithConfig.  The configuration and the values\n   computed by the constructor (allowMethods, exposeHeaders, hasCustomAllowMethods ...) are named constants; the request's\n   Origin and method are constants of one run; config.AllowOrigins and allowOriginPatterns are list cells; len,\n   strings.Contains, matchSubdomain and a pattern's MatchString are pure predicates; header changes are events. *)\n" + s, nil
+}
+
+func genGoLiteBind(repo string) (string, error) {
+	f, err := parseFile(repo, "bind.go")
+	if err != nil {
+		return "", err
+	}
+	out := goliteHeader + "(* bind.go: DefaultBinder.Bind (which sources are consulted, in which order) and DefaultBinder.BindBody (which decoder a\n   Content-Type selects).  The binders and decoders themselves are external calls (events; their error comes from the input\n   stream); the media type computed from the Content-Type header comes from the input stream too. *)\n"
+	ext := map[string]bool{"b.BindPathParams": true, "b.BindQueryParams": true, "strings.Cut": true, "strings.TrimSpace": true,
+		"c.Echo().JSONSerializer.Deserialize": true, "xml.NewDecoder(req.Body).Decode": true, "c.FormParams": true, "c.MultipartForm": true, "b.bindData": true}
+	for _, nm := range []string{"Bind", "BindBody"} {
+		fd := findFunc(f, "*DefaultBinder", nm)
+		if fd == nil {
+			return "", fmt.Errorf("DefaultBinder.%s not found", nm)
+		}
+		s, err := goliteFunc(fd, "binder_"+strings.ToLower(nm), goliteCfg{ignore: map[string]bool{}, extern: ext,
+			cells: map[string]bool{"c.Request().Method": true, "req.ContentLength": true}, tail: map[string]bool{"b.BindBody": true}})
+		if err != nil {
+			return "", err
+		}
+		out += s
+	}
+	return out, nil
 }
